@@ -10,6 +10,7 @@ import (
 	"math"
 	"os"
 	"path/filepath"
+	"reflect"
 	"runtime"
 	"runtime/metrics"
 	"sort"
@@ -953,8 +954,17 @@ var hostVaryingContent = map[string]bool{"fd_filestat_get": true, "path_filestat
 // slice whose entry for parameter c.direct.param carries c.direct.upper in its upper half. It is used
 // only to attribute a dirty-stack difference to one parameter.
 func (w *world) directCall(eng *engineRT, mod api.Module, c caseID) (rs []uint64, err error) {
-	hm, ok := eng.rt.Module(wasiMod).(*wasm.ModuleInstance)
-	if !ok {
+	// Runtime.Module wraps host modules in a struct embedding the api.Module (to forbid ExportedFunction)
+	var hm *wasm.ModuleInstance
+	switch v := eng.rt.Module(wasiMod).(type) {
+	case *wasm.ModuleInstance:
+		hm = v
+	default:
+		if rv := reflect.ValueOf(v); rv.Kind() == reflect.Struct && rv.NumField() == 1 && rv.Field(0).CanInterface() {
+			hm, _ = rv.Field(0).Interface().(*wasm.ModuleInstance)
+		}
+	}
+	if hm == nil {
 		return nil, fmt.Errorf("host module instance not accessible")
 	}
 	var gf api.GoModuleFunction
@@ -1008,6 +1018,10 @@ func (w *world) staleBitsViolation(clean caseID, cleanRes, dirtyRes caseRes, pat
 	base := clean
 	base.direct = &directSpec{param: -1}
 	ref := w.runCase(base)
+	note := ""
+	if ref.harness != "" || ref.outcome == "other-error" {
+		note = fmt.Sprintf(" [direct invocation unavailable: %s %v]", ref.harness, ref.viols)
+	}
 	if ref.harness == "" {
 	outer:
 		for k, pr := range f.params {
@@ -1025,8 +1039,8 @@ func (w *world) staleBitsViolation(clean caseID, cleanRes, dirtyRes caseRes, pat
 		}
 	}
 	return &viol{clean.Fn + ":depends-on-stale-upper-argument-bits:" + param,
-		fmt.Sprintf("reached through two forwarding functions after a stack dirtier (pattern %#x) the call behaves differently from the clean-stack call with the same 32-bit argument values: clean %q, dirty %q; attributed to %s%s by invoking the host function with only that slot's upper half set",
-			pattern, cleanRes.fxStrong, dirtyRes.fxStrong, param, name)}
+		fmt.Sprintf("reached through two forwarding functions after a stack dirtier (pattern %#x) the call behaves differently from the clean-stack call with the same 32-bit argument values: clean %q, dirty %q; attributed to %s%s by invoking the host function with only that slot's upper half set%s",
+			pattern, cleanRes.fxStrong, dirtyRes.fxStrong, param, name, note)}
 }
 
 func firstLine(s string) string {
